@@ -11,6 +11,7 @@ L3: the statement on the implementation for larger V (random projectors, spectra
 from __future__ import annotations
 
 import json
+import math
 from fractions import Fraction
 from math import lcm
 
@@ -104,6 +105,18 @@ def judge(ctx, name, l, P, crosses, rep, rng, idempotent=True):
     Pg = (s[:, None] * P) * s[None, :]
     if not np.allclose(cn.chern_marker(l, Pg), ch, atol=tol, rtol=0):
         rep("chern marker changes under a site-wise sign change"); return False
+    # the same matrix in other memory layouts / wrappers gives the same markers
+    view = np.zeros((2 * n, 2 * n), dtype=P.dtype); view[::2, ::2] = P
+    for lay, Pv in (("column-major", np.asfortranarray(P)), ("strided view", view[::2, ::2]), ("read-only", np.array(P))):
+        if lay == "read-only":
+            Pv.setflags(write=False)
+        c0 = np.asarray(crosses[0], dtype=float)
+        try:
+            same = np.allclose(cn.chern_marker(l, Pv), ch, atol=tol, rtol=0) and np.allclose(cn.crosshair_marker(l, Pv, c0), cn.crosshair_marker(l, P, c0), atol=tol, rtol=0)
+        except Exception as ex:
+            rep(f"markers raise {type(ex).__name__}: {ex} for a {lay} projector array"); return False
+        if not same:
+            rep(f"markers change when the same projector is passed as a {lay} array", layout=lay); return False
     for c in crosses:
         c = np.asarray(c, dtype=float)
         m = cn.crosshair_marker(l, P, c)
@@ -125,8 +138,17 @@ def judge(ctx, name, l, P, crosses, rep, rng, idempotent=True):
 def crosshairs_for(rng, l):
     pos = l.vertices.positions
     k = int(rng.integers(l.n_vertices))
-    return [rng.uniform(0.2, 0.8, size=2), np.array([-0.5, 0.5]), np.array([1.5, 2.0]), pos[k].copy(),           # exactly on a vertex
-            np.array([pos[k][0], rng.uniform()]), np.array([0.0, 0.0])]
+    out = [rng.uniform(0.2, 0.8, size=2), np.array([-0.5, 0.5]), np.array([1.5, 2.0]), pos[k].copy(),           # exactly on a vertex
+           np.array([pos[k][0], rng.uniform()]), np.array([0.0, 0.0])]
+    # just above / just below a vertex coordinate, from one ulp to 1e-5, on either axis: the step function is strict at every scale
+    j = int(rng.integers(l.n_vertices))
+    for d in (None, 1e-12, 1e-9, 1e-7, 3e-6):
+        for sgn in (1, -1):
+            for ax in (0, 1):
+                c = pos[j].copy() + np.array([0.37, 0.41]) * (1 - np.eye(2)[ax])         # generic in the other coordinate
+                c[ax] = np.nextafter(pos[j][ax], sgn * np.inf) if d is None else pos[j][ax] + sgn * d
+                out.append(c)
+    return out
 
 
 def run(ctx):
@@ -153,7 +175,7 @@ def run(ctx):
             ctx.case((name,), nontrivial=0 < r < n, sample=dict(case=name, denominator=d))
             xs = [int(x * GRID) for x in l.vertices.positions[:, 0]]; ys = [int(y * GRID) for y in l.vertices.positions[:, 1]]
             # crosshair coordinates are sent on the grid only when they are on it; otherwise compare with the ceiling (same strict indicator)
-            cint = [[int(np.ceil(c[0] * GRID)), int(np.ceil(c[1] * GRID))] for c in crosses]
+            cint = [[math.ceil(Fraction(float(c[0])) * GRID), math.ceil(Fraction(float(c[1])) * GRID)] for c in crosses]       # exact: no rounding in c * GRID
             reqs.append(dict(op="marker", N=N, xs=xs, ys=ys, crosshairs=cint))
             meta.append((name, l, P, d, crosses))
             ctx.count("ranks_covered")
